@@ -88,6 +88,13 @@ package resource_division
 //@ define shareWf(w real, u real, T real, kv real) real = max(0.0, w / T + kv * (w / T - u))
 //@ define shareW(q *rs.QueueAttributes, r rs.ResourceName, T real, kv real) real = shareWf(weight(q, r), usage(q, r), T, kv)
 
+// (helper "c09b") sums over a key set S (a map's dom(..) or the ghost `visited`): the share weights stored in a table / the
+// effective ("share") weight of the unsatisfied siblings (closed form). Sums are wrapped in defines so that the same
+// summand evaluated in different states / for different tables is related by pointwise congruence.
+//@ define swSum(S ref, m map[common_info.QueueID]float64) real = sum k in S :: m[k]
+//@ define effW(q *rs.QueueAttributes, r rs.ResourceName, T real, kv real) real = ite(satisfied(q, r), 0.0, shareW(q, r, T, kv))
+//@ define effWSum(S ref, qs map[common_info.QueueID]*rs.QueueAttributes, r rs.ResourceName, T real, kv real) real = sum k in S :: effW(qs[k], r, T, kv)
+
 // C09 ("within a priority the surplus is monotone in over-quota weight", "weight incl. 0", "all
 // k-values"): per-round share weights are >= 0, bounded by their sum, exist exactly for the
 // unsatisfied queues, follow the documented formula and are monotone in the over-quota weight.
@@ -105,7 +112,8 @@ package resource_division
 //@     invariant resourceName == "GPU" ==> forall k in shareWeightsPerQueue :: shareWeightsPerQueue[k] == shareWf(queues[k].GPU.OverQuotaWeight, queues[k].GPU.Usage, totalWeights, kValue)
 //@     invariant forall k in shareWeightsPerQueue :: shareWeightsPerQueue[k] <= shareWeightsSum
 //@     invariant totalWeights == totalUnsatW(queues, resourceName)
-//@     invariant shareWeightsSum == sum k in visited :: shareWeightsPerQueue[k]
+//@     invariant shareWeightsSum == swSum(visited, shareWeightsPerQueue)
+//@     invariant shareWeightsSum == effWSum(visited, queues, resourceName, totalWeights, kValue)
 //@   ensures [freshMap] result0 != nil && fresh(result0)
 //@   ensures [sumNonNeg] result1 >= 0.0
 //@   ensures [weightsNonNeg] forall k in result0 :: result0[k] >= 0.0
@@ -113,7 +121,9 @@ package resource_division
 //@   ensures [keysUnsatisfied] forall k in result0 :: k in queues && !satisfied(queues[k], resourceName)
 //@   ensures [unsatisfiedHaveKey] result1 != 0.0 ==> forall k in queues :: !satisfied(queues[k], resourceName) ==> k in result0
 //@   ensures [formula] result1 != 0.0 ==> exists T real :: T > 0.0 && (forall k in queues :: !satisfied(queues[k], resourceName) ==> weight(queues[k], resourceName) <= T) && (forall k in result0 :: result0[k] == shareW(queues[k], resourceName, T, kValue))
-//@   ensures [sumOfWeights] result1 == sum k in queues :: result0[k]
+//@   ensures [sumOfWeights] totalUnsatW(queues, resourceName) != 0.0 ==> result1 == swSum(queues, result0)
+//@   ensures [sumClosedForm] totalUnsatW(queues, resourceName) != 0.0 ==> result1 == effWSum(queues, queues, resourceName, totalUnsatW(queues, resourceName), kValue)
+//@   ensures [nothingToShare] totalUnsatW(queues, resourceName) == 0.0 ==> result1 == 0.0 && forall k common_info.QueueID :: !(k in result0)
 //@   ensures [formulaClosed] result1 != 0.0 ==> forall k in result0 :: result0[k] == shareW(queues[k], resourceName, totalUnsatW(queues, resourceName), kValue)
 //@   ensures [weightMonotoneCPU] resourceName == "CPU" && kValue >= 0.0 ==> forall a in result0 :: forall b in result0 :: queues[a].CPU.OverQuotaWeight <= queues[b].CPU.OverQuotaWeight && queues[a].CPU.Usage >= queues[b].CPU.Usage ==> result0[a] <= result0[b]
 //@   ensures [weightMonotoneMemory] resourceName == "Memory" && kValue >= 0.0 ==> forall a in result0 :: forall b in result0 :: queues[a].Memory.OverQuotaWeight <= queues[b].Memory.OverQuotaWeight && queues[a].Memory.Usage >= queues[b].Memory.Usage ==> result0[a] <= result0[b]
@@ -132,6 +142,10 @@ package resource_division
 // queues that are not among the siblings keep their shares (and their fair-share cache)
 //@ define othersKept(qs map[common_info.QueueID]*rs.QueueAttributes) bool = forall q *rs.QueueAttributes :: q != nil && !member(qs, q) ==> q.CPU.FairShare == old(q.CPU.FairShare) && q.Memory.FairShare == old(q.Memory.FairShare) && q.GPU.FairShare == old(q.GPU.FairShare) && q.lastFairShare == old(q.lastFairShare)
 
+// (helper "c09b") sums over a key set S of the siblings: what phase 1 hands out / the fair shares themselves
+//@ define deservedSum(S ref, qs map[common_info.QueueID]*rs.QueueAttributes, r rs.ResourceName, total real) real = sum k in S :: deservedPart(qs[k], r, total)
+//@ define fairSum(S ref, qs map[common_info.QueueID]*rs.QueueAttributes, r rs.ResourceName) real = sum k in S :: fair(qs[k], r)
+
 // C09: "each queue's fair share is at least min(deserved quota, its request capped by its limit)":
 // phase 1 adds exactly that amount to every sibling (functional, hence independent of the map
 // iteration order), touches no other queue and no other resource.
@@ -146,7 +160,11 @@ package resource_division
 //@     invariant forall k in queues :: otherResKept(queues[k], resource)
 //@     invariant othersKept(queues)
 //@     invariant (forall k in queues :: deservedPart(queues[k], resource, totalResourceAmount) >= 0.0) ==> remainingAmount <= totalResourceAmount && forall k in visited :: remainingAmount <= totalResourceAmount - deservedPart(queues[k], resource, totalResourceAmount)
+//@     invariant remainingAmount == totalResourceAmount - deservedSum(visited, queues, resource, totalResourceAmount)
+//@     invariant fairSum(queues, queues, resource) + remainingAmount == old(fairSum(queues, queues, resource)) + totalResourceAmount
 //@   ensures [deservedAdded] forall k in queues :: fair(queues[k], resource) == old(fair(queues[k], resource)) + deservedPart(queues[k], resource, totalResourceAmount)
+//@   ensures [leftAfterDeserved] remainingAmount == totalResourceAmount - deservedSum(queues, queues, resource, totalResourceAmount)
+//@   ensures [conservation] fairSum(queues, queues, resource) + remainingAmount == old(fairSum(queues, queues, resource)) + totalResourceAmount
 //@   ensures [otherResourcesKept] forall k in queues :: otherResKept(queues[k], resource)
 //@   ensures [otherQueuesKept] othersKept(queues)
 //@   ensures [cache] queuesOK(queues)
@@ -254,6 +272,9 @@ package resource_division
 // phase belongs to a still unsatisfied queue of this level and is < 1 unit.
 // NOT proved here (needs a sum over the visited queues, which the spec language cannot express):
 // remaining >= 0 ("the surplus handed out never exceeds what is left").
+// (helper "c09b") round share of queue k: the code's `amountToGiveInCurrentRound * (shareWeightsPerQueue[k] / shareWeightsSum)`, and its sum
+//@ define roundShare(m map[common_info.QueueID]float64, k common_info.QueueID, A real, S real) real = A * (m[k] / S)
+//@ define roundShareSum(V ref, m map[common_info.QueueID]float64, A real, S real) real = sum k in V :: roundShare(m, k, A, S)
 //@ func divideUpToFairShare
 //@   props C09
 //@   requires validRes(resourceName) && queuesOK(queues) && keyedByUID(queues) && weightsNonNeg(queues, resourceName)
@@ -268,9 +289,16 @@ package resource_division
 //@     invariant rrOK(remainingRequested, queues, resourceName)
 //@     invariant rrDistinct(remainingRequested)
 //@     invariant oldTablesKept()
+//@     invariant fairSum(queues, queues, resourceName) + cur(totalResourceAmount) == old(fairSum(queues, queues, resourceName)) + totalResourceAmount
+//@     invariant totalResourceAmount >= 0.0 ==> cur(totalResourceAmount) >= 0.0
 //@   loop 2
 //@     invariant remainingRequested != nil && fresh(remainingRequested)
 //@     invariant forall k in visited :: k in queues
+//@     invariant fairSum(queues, queues, resourceName) + cur(totalResourceAmount) == old(fairSum(queues, queues, resourceName)) + totalResourceAmount
+//@     invariant shareWeightsSum > 0.0 && shareWeightsSum == swSum(queues, shareWeightsPerQueue) && forall k common_info.QueueID :: shareWeightsPerQueue[k] >= 0.0
+//@     invariant totalResourceAmount >= 0.0 ==> amountToGiveInCurrentRound >= 0.0
+//@     invariant totalResourceAmount >= 0.0 ==> amountToGiveInCurrentRound - cur(totalResourceAmount) <= roundShareSum(visited, shareWeightsPerQueue, amountToGiveInCurrentRound, shareWeightsSum)
+//@     invariant roundShareSum(visited, shareWeightsPerQueue, amountToGiveInCurrentRound, shareWeightsSum) * shareWeightsSum == amountToGiveInCurrentRound * swSum(visited, shareWeightsPerQueue)
 //@     invariant queuesOK(queues)
 //@     invariant cur(totalResourceAmount) <= totalResourceAmount
 //@     invariant forall k in queues :: fair(queues[k], resourceName) >= old(fair(queues[k], resourceName)) && fair(queues[k], resourceName) <= max(old(fair(queues[k], resourceName)), capReq(queues[k], resourceName))
@@ -281,6 +309,8 @@ package resource_division
 //@     invariant oldTablesKept()
 //@   ensures [remainderTableFresh] remainingRequested != nil && fresh(remainingRequested)
 //@   ensures [nothingTakenBack] remainingAmount <= totalResourceAmount
+//@   ensures [neverNegative] totalResourceAmount >= 0.0 ==> remainingAmount >= 0.0
+//@   ensures [conservation] fairSum(queues, queues, resourceName) + remainingAmount == old(fairSum(queues, queues, resourceName)) + totalResourceAmount
 //@   ensures [sharesOnlyGrow] forall k in queues :: fair(queues[k], resourceName) >= old(fair(queues[k], resourceName))
 //@   ensures [neverBeyondCappedRequest] forall k in queues :: fair(queues[k], resourceName) <= max(old(fair(queues[k], resourceName)), capReq(queues[k], resourceName))
 //@   ensures [otherResourcesKept] forall k in queues :: otherResKept(queues[k], resourceName)
